@@ -42,6 +42,8 @@ def make_handler_class(desper, env, name, events):
 
     ns['__hash__'] = __hash__
     ns['__eq__'] = lambda self, other: self is other
+    # the truth value of a handler must never matter (an empty container-like component is still a listener)
+    ns['__bool__'] = lambda self: not getattr(self, 'falsy', False)
     cls = type('H_' + name, (), ns)
     plain = [e for e in events if METHOD_OF[e] == e]
     renamed = {e: METHOD_OF[e] for e in events if METHOD_OF[e] != e}
@@ -78,6 +80,7 @@ class DispatcherAdapter:
             cls = make_handler_class(self.desper, env, h, sorted(init['subs'][h]))
             o = cls()
             o.name = h
+            o.falsy = (self.counter + hs.index(h)) % 2 == 0
             env.objs[h] = o
             env.weak[h] = weakref.ref(o)
             del o
